@@ -5,7 +5,7 @@
    UpdateMaxProbe never under-approximates, the growth policy does not shrink / probing reaches every bucket,
    CalcCapacity <= physical size); they are proved below for the kinds used by the extracted model. *)
 From Coq Require Import ZArith List Bool Permutation.
-From C11 Require Import GrowModel.
+From C11 Require Import GrowModel GenTie.
 Import ListNotations.
 Local Open Scope Z_scope.
 
@@ -318,6 +318,39 @@ Theorem C11_insert_never_fails_check :
          Some (s', r) -> r <> RCheck.
 Proof. exact insert_never_fails_check. Qed.
 Print Assumptions C11_insert_never_fails_check.
+
+(* T-gen tie.  The leaf arithmetic of the growth decision and of the probe sequence is regenerated from /repo's headers by
+   cxx2coq on every run (Gen_*.v: HashBucketBase / HashBucketOpen2N2<N> / HashBucketOpen8 ::CalcCapacity and
+   ::GetBucketCountShift, BucketBase / BucketOpen2N2 / BucketOpen8 ::GetStartBucketIndex / GetNextBucketIndex,
+   HashSetBuckets::GetCount).  On the domain of real tables (2^L buckets, L <= 62, no size_t overflow of
+   bucketCount*maxCount, index and probe below the bucket count) these GENERATED functions are equal to the functions the
+   model of every configuration is instantiated with and that all theorems above talk about (bcount, start_mask,
+   next_linear / next_tri, cc_base / cc_open, sh_base / sh_open).  A change of any of these C++ functions changes the
+   regenerated Gallina and breaks this proof. *)
+Theorem C11_model_parameters_are_source :
+  forall (c : config) (L : Z),
+         0 <= L <= 62 ->
+         0 < c_cap c ->
+         2 ^ L * c_cap c < 2 ^ 53 ->
+         Gen_Buckets.GetCount L = 2 ^ L /\
+         (forall hc : Z, Gen_IndexBase.GetStartBucketIndex hc (2 ^ L) = start_mask hc (2 ^ L)) /\
+         (forall i p : Z, 0 <= i < 2 ^ L -> 0 <= p < 2 ^ L -> src_next c i (2 ^ L) p = cfg_next c i (2 ^ L) p) /\
+         src_capacity c (2 ^ L) = cfg_cc c (2 ^ L) /\ src_shift c (2 ^ L) = cfg_sh c (2 ^ L).
+Proof. exact model_parameters_are_source. Qed.
+Print Assumptions C11_model_parameters_are_source.
+
+(* HashBucketOpen2N2<1> and HashBucketOpen2N2<3> translate to the same Gallina (maxCount is a Section variable): one proof covers all instantiations. *)
+Theorem C11_same_code_open2n2_policy :
+  Gen_PolicyOpen2N2_m1.CalcCapacity = Gen_PolicyOpen2N2.CalcCapacity /\
+         Gen_PolicyOpen2N2_m1.GetBucketCountShift = Gen_PolicyOpen2N2.GetBucketCountShift.
+Proof. exact same_code_open2n2_policy. Qed.
+Print Assumptions C11_same_code_open2n2_policy.
+
+(* BucketOpen8 and BucketOpen2N2 have the same GetNextBucketIndex. *)
+Theorem C11_same_code_open_index :
+  Gen_IndexOpen8.GetNextBucketIndex = Gen_IndexOpen2N2.GetNextBucketIndex.
+Proof. exact same_code_open_index. Qed.
+Print Assumptions C11_same_code_open_index.
 
 (* the hypotheses kind_ok hold for the concrete kinds used by the extracted model (mask start index, linear and triangular probing, exact max-probe bound, both growth policies). *)
 Theorem C11_concrete_kind_ok :
